@@ -13,7 +13,7 @@ from mc.result import Result
 
 PROPERTY = 'C06'
 LEVEL = 'exploration'
-CASE_GUARD_S = 3600  # a case is a composite (one block of expressions x all texts ...)
+CASE_GUARD_S = {'quick': 300, 'thorough': 3600}  # a case is a composite (a block of expressions x all texts, ...)
 CHUNK = 6
 RULE = ('trees: leaves x { !, &&, || with 2 or 3 operands } to depth 2 (binary at depth 2; thorough: 4 leaves and ternary/3-level spot family) for each of the '
         '6 host types (integer, line, text, file, files matcher; text transformer with | chains); renderings: minimal parentheses, full parentheses, '
